@@ -175,7 +175,7 @@ void one(int sel, const std::string& content, const char* tag)
    }
    if(parsedAsMps) vfz::completeMps(text);
    if(parsedAsMps && std::is_same<R, Rational>::value && vfz::known("mps-rational-rows-null")
-         && vfz::known("mps-eof-hang") && vfz::mpsRowsLineWithoutName(text))
+         && vfz::mpsRowsLineWithoutName(text))
    {
       vfz::count("excluded_known.mps-rational-rows-null");
       return;
@@ -188,6 +188,11 @@ void one(int sel, const std::string& content, const char* tag)
    if(std::is_same<R, Rational>::value && vfz::known("rat-denominator-unchecked") && vfz::hasBadDenominator(text))
    {
       vfz::count("excluded_known.rat-denominator-unchecked");
+      return;
+   }
+   if(!parsedAsMps && vfz::known("lpf-long-token-overflow") && vfz::hasLongLpToken(text))
+   {
+      vfz::count("excluded_known.lpf-long-token-overflow");
       return;
    }
    if(!parsedAsMps && vfz::known("lpf-keyword-bracket-overread") && vfz::hasClosingBracket(text))
